@@ -5,7 +5,7 @@ from __future__ import annotations
 from pbt import strategies as S
 from pbt.common import Stats, Sub, Violation
 from pbt.model import Model
-from pbt.sut import mk_converter
+from pbt.sut import mk_incremental_queried, query_everything, mk_converter
 
 PROPERTY_ID = "C03"
 RULE = (
@@ -25,11 +25,10 @@ ASSUMPTIONS = [
 ]
 
 
-def check(case, stats: Stats) -> None:
+def _check_on(c, case, stats: Stats) -> None:
     spec = case["spec"]
     recs, d = spec["records"], spec["delimiter"]
     model = Model(recs, d)
-    c = mk_converter(spec)
     pf = model.is_prefix_free()
     stats.cls("prefix-free-converters" if pf else "nested-converters")
     ups = model.all_uri_prefixes()
@@ -93,6 +92,20 @@ def check(case, stats: Stats) -> None:
             pc = model.parse_curie(s)
             if pc not in (None, "NODELIM") and pc[0] != s.partition(d)[0]:
                 stats.nontrivial({"records": recs, "delimiter": d, "curie": s}, "prefix-free-synonym-curie")
+
+
+
+def check(case, stats: Stats) -> None:
+    spec = case["spec"]
+    _check_on(mk_converter(spec), case, stats)
+    # same laws on a converter grown record by record / synonym by synonym with all queries issued after every mutation
+    n = len(spec["records"])
+    inc = mk_incremental_queried(spec, list(reversed(range(n))), lambda c: query_everything(c, case["uris"] + case["curies"], ()))
+    try:
+        _check_on(inc, case, Stats())
+    except Violation as v:
+        v.message = "[converter built incrementally with interleaved queries] " + v.message
+        raise
 
 
 SUBS = [
